@@ -177,3 +177,12 @@ Theorem concurrent_refuted :
   cur st = 2 /\ active st = [false; true; true] /\         (* two states report active *)
   count (Leave 0) (log st) = 2.                            (* the state left once fired its leave event twice *)
 Proof. vm_compute. repeat split. Qed.
+
+(* a request made from a LEAVE handler of a flat machine: A's leave handler (once) requests ac while ab is under way *)
+Definition leave_machine : machine := {| m_parent := [None; None; None]; m_trans := [("ab"%string, [0], 1); ("ac"%string, [0], 2)] |}.
+Definition leave_handlers : handlers := fun e => match e with Leave 0 => ["ac"%string] | _ => [] end.
+Definition leave_once : evt -> bool := fun e => match e with Leave 0 => true | _ => false end.
+Theorem nested_from_leave_refuted :
+  let '(st, raised) := perform leave_machine leave_handlers leave_once 8 (start_state leave_machine 0) "ab"%string in
+  raised = false /\ cur st = 1 /\ active st = [false; true; true] /\ count (Leave 0) (log st) = 2.
+Proof. vm_compute. repeat split. Qed.
